@@ -110,7 +110,9 @@ def fmt_run(outcome, conn):
     if conn is None:
         return f'{outcome} noconn', '_'
     recvs = ','.join(f'{k}:{n}' for k, n in conn.recvs) or '_'
-    return f'{outcome} {conn.unread.hex() or "-"} {conn.received.hex() or "-"}', recvs
+    # what is left on the socket matters on success only (after a failure it is abandoned)
+    unread = (conn.unread.hex() or '-') if outcome == 'ok' else '*'
+    return f'{outcome} {unread} {conn.received.hex() or "-"}', recvs
 
 
 def model_run(line):
@@ -120,6 +122,8 @@ def model_run(line):
         return line, '_'
     outcome, unread, recvs, sent = toks
     sent = ''.join(m for m in sent.split(';') if m not in ('-', '_')) or '-'
+    if outcome != 'ok':
+        unread = '*'
     return f'{outcome} {unread} {sent}', recvs
 
 
@@ -160,13 +164,7 @@ def impl_object(mods, cfg, chunks):
     return out, raw
 
 
-def obj_observable(tokens):
-    """messages, final verdict, and whether the object ends still wanting data; the values (and
-    number) of the intermediate need-more-data requests are an implementation choice"""
-    out = [t for t in tokens if not (t.startswith('N') and t != 'None')]
-    if tokens and tokens[-1].startswith('N') and tokens[-1] != 'None':
-        out.append('starved')
-    return out
+obj_observable = sc.observable_tokens
 
 
 def oracle_obj(cfg, chunks, out):
@@ -830,6 +828,69 @@ def eval_con(ctx, cases, res, scope_name):
     res['scopes'][scope_name] = res['scopes'].get(scope_name, 0) + len(cases)
 
 
+def cc_cases(deep, rng):
+    """two or three concurrent create_connection calls on ONE SOCKSProxy object, each meeting
+    its own reply stream: every call's outcome must depend on ITS replies only"""
+    for cfg in ('5n', '5a', '4'):
+        g = list(granting_streams(cfg, (0, 3)))
+        grant = bytes(g[0] + [0x16, 3])
+        if cfg == '4':
+            pool = [grant, bytes([0, 91] + [0] * 6), bytes([1, 90] + [0] * 6), grant[:3], b'']
+        else:
+            pre = prefixes(cfg)[-1]
+            pool = [grant, bytes(g[-1]), bytes(pre + reply5(1, rep=5)), bytes(pre + [5, 0, 1, 1]), bytes(pre[:1]),
+                    bytes([5, 255]), bytes(pre + reply5(3, 4))[:len(pre) + 7]]
+        for a in pool:
+            for b in pool:
+                scheds = [[i % 2 for i in range(80)], [0, 0, 0, 1, 1] * 20, []]
+                scheds.append([rng.randrange(2) for _ in range(80)])
+                if deep:
+                    scheds += [[rng.randrange(2) for _ in range(80)] for _ in range(4)]
+                for sched in scheds:
+                    yield cfg, [a, b], sched
+        yield cfg, [pool[0], pool[1], pool[2]], [i % 3 for i in range(120)]
+
+
+def eval_cc(ctx, cases, res, scope_name):
+    cases = list(cases)
+    _init(ctx.repo)
+    lines, texts, metas = [], [], []
+    for cfg, streams, sched in cases:
+        proto, host, port, auth = CFGS[cfg]
+        w = world(yields=True)
+        proxy = sw.make_proxy(_mods, proto, auth)
+        coros = {}
+        for i, st in enumerate(streams):
+            w.add_call(i, [[('t', st, [2, 1, 3])]])
+            coros[i] = proxy.create_connection(FACTORY, sc.host_string(host), port)
+        try:
+            with sc.watchdog(10.0):
+                sw.run_interleaved(w, coros, sched)
+        except Livelock:
+            pass
+        cj = {'op': 'cc', 'cfg': cfg, 'streams': [st.hex() for st in streams], 'schedule': sched}
+        for i, st in enumerate(streams):
+            call = w.calls[i]
+            outcome = sw.outcome_name(call.result, _mods.socks)
+            conn = call.conns[0] if call.conns else None
+            bad = oracle_hs(cfg, st, outcome, conn)
+            text, _recvs = fmt_run(outcome, conn)
+            if bad:
+                res.violation(bad[0], cj, f'call {i} (replies {st.hex() or "-"}): {bad[1]}', impl=text[:300])
+            lines.append(hs_line(cfg, st, conn))
+            texts.append(text)
+            metas.append((cj, i))
+        res.count('cc_calls', len(streams))
+        res.nontrivial(('cc', cfg, tuple(streams), tuple(sched[:16])))
+    model = ctx.model(lines)
+    for (cj, i), t, m in zip(metas, texts, model or []):
+        mt, _r = model_run(m)
+        if mt != t:
+            res.disagreement(dict(cj, call=i), t[:400], mt[:400])
+    res['evaluations'] += len(cases)
+    res['scopes'][scope_name] = res['scopes'].get(scope_name, 0) + len(cases)
+
+
 RULE = ('hs case = (client configuration, reply stream, segmentation) met by the public '
         'create_connection on a fake network (one proxy address): outcome, bytes left unread and '
         'bytes sent are compared with the model, every (requested, returned) recv pair is judged '
@@ -842,7 +903,9 @@ RULE = ('hs case = (client configuration, reply stream, segmentation) met by the
         '(configuration, stream, segmentation) with at least two segments; con case = '
         'create_connection(resolve=True) over 1..3 remote addresses whose individual outcomes '
         '(connection / failure after which the next address is tried, with its repr / failure '
-        'that aborts) are observed separately and given to the model')
+        'that aborts) are observed separately and given to the model; cc case = two or three '
+        'concurrent create_connection calls on one proxy object, each with its own reply stream, '
+        'interleaved at the awaits of the fake loop by a schedule')
 
 
 def run(ctx):
@@ -862,6 +925,7 @@ def run(ctx):
         eval_obj(ctx, obj_cases(ctx.deep, rng), res, 'objects_by_hand', later)
     eval_det(ctx, det_cases(ctx.deep), res, 'detect_proxy')
     eval_con(ctx, con_cases(ctx.deep), res, 'connect_addresses')
+    eval_cc(ctx, cc_cases(ctx.deep, rng), res, 'concurrent_calls_one_proxy')
     ngen = 120000 if ctx.deep else 8000
     gen = []
     for _ in range(ngen):
@@ -886,6 +950,8 @@ def replay(ctx, case):
         eval_obj(ctx, [(case['cfg'], [bytes.fromhex(c) for c in case['chunks']])], res, 'replay')
     elif op == 'con':
         eval_con(ctx, [(case['proto'], [dec_beh(b) for b in case['behaviours']])], res, 'replay')
+    elif op == 'cc':
+        eval_cc(ctx, [(case['cfg'], [bytes.fromhex(x) for x in case['streams']], case['schedule'])], res, 'replay')
     else:
         auth = tuple(case['auth']) if case['auth'] else None
 
